@@ -282,6 +282,19 @@ class Execute(Contract):
         ns.args = [net]
         return ns
 
+    def bind(self, I, selfobj, args, kwargs):
+        net = args[0]
+        if '_abs_idx' not in net.fields:
+            from pyvc.engine import Unsupported
+            raise Unsupported('Simulation._execute contract applied to a concrete net')
+        g = selfobj.fields['_ghost']
+        return NS(self=selfobj, args=list(args), case='abstract', j=net.fields['_abs_idx'], g=g)
+
+    def havoc(self, I, ns):
+        import z3
+        v = ns.self.fields['value']
+        v.arr = z3.Const('value_after_execute!%d' % next(I.st.n), v.arr.sort())
+
     def snapshot(self, I, ns):
         s = ns.self.fields
         ns.old_value = s['value'].arr
@@ -289,6 +302,8 @@ class Execute(Contract):
         ns.old_mem = s['memvalue'].arr
 
     def raises(self, ns):
+        if ns.case == 'abstract':
+            return []
         r = [('PyrtlInternalError', ns.case == 'unknown-op')]
         if ns.case == 'm:rom':
             r.append(('PyrtlError', ns.rombad))     # invalid ROM data is refused, not simulated
@@ -299,6 +314,13 @@ class Execute(Contract):
         s = ns.self.fields
         out = [('regvalue unchanged', s['regvalue'].arr == ns.old_reg),
                ('memvalue unchanged', s['memvalue'].arr == ns.old_mem)]
+        if ns.case == 'abstract':
+            g, j = ns.g, ns.j
+            out.append(('value == old.set(dest_j, SEM_j(old value, memvalue)) unless op in r@',
+                        s['value'].arr == z3.If(g['RQ'](j), ns.old_value,
+                                                z3.Store(ns.old_value, g['D'](j),
+                                                         g['SEM'](j, ns.old_value, ns.old_mem)))))
+            return out
         if ns.case in ('r', '@'):
             out.append(('value unchanged', s['value'].arr == ns.old_value))
         else:
@@ -337,6 +359,30 @@ class MemUpdate(Contract):
         st.assume(z3.Select(mv.dom, memid.t))
         return NS(self=sim, args=[net], case=case, memid=memid.t,
                   addr=z3.Select(val, a.oid), data=z3.Select(val, d.oid), en=z3.Select(val, e.oid))
+
+    def bind(self, I, selfobj, args, kwargs):
+        import z3
+        net = args[0]
+        if '_abs_idx' not in net.fields:
+            from pyvc.engine import Unsupported
+            raise Unsupported('Simulation._mem_update contract applied to a concrete net')
+        g = selfobj.fields['_ghost']
+        j = net.fields['_abs_idx']
+        val = selfobj.fields['value'].arr
+        return NS(self=selfobj, args=list(args), case='@', memid=g['MID'](j),
+                  addr=z3.Select(val, g['MA'](j)), data=z3.Select(val, g['MD'](j)),
+                  en=z3.Select(val, g['ME'](j)))
+
+    def pre(self, ns):
+        import z3
+        mv = ns.self.fields['memvalue']
+        return [('memid present (created by _initialize)', z3.Select(mv.dom, ns.memid))]
+
+    def havoc(self, I, ns):
+        import z3
+        mv = ns.self.fields['memvalue']
+        mv.arr = z3.Const('mem_after_update!%d' % next(I.st.n), mv.arr.sort())
+        mv.dom2 = z3.Const('memdom2_after_update!%d' % next(I.st.n), mv.dom2.sort())
 
     def snapshot(self, I, ns):
         s = ns.self.fields
@@ -506,3 +552,309 @@ def _memupdate_concrete(self, tier='quick'):
 
 
 MemUpdate.concrete = _memupdate_concrete
+
+
+# --------------------------------------------------------------------------- Simulation.step
+class _StepBase(Contract):
+    module, qualname = 'pyrtl.simulation', 'Simulation.step'
+
+    @property
+    def hooks(self):
+        from pyvc.engine import Builtin
+
+        def subset(I_, a, k):
+            raise RuntimeError('unbound')
+        return {'global:check_rtl_assertions': Builtin('check_rtl_assertions(stub: no assertions)',
+                                                       lambda I_, a, k: None)}
+
+
+def _block_model(I, wires, inputs_fn):
+    """Block with a finite universe of named wires; wirevector_subset(Input) -> FSet."""
+    from pyvc.engine import SObj, FSet, Builtin, Sym
+    import z3
+    blk = SObj('Block', dict(wirevector_by_name={w.fields['name']: w for w in wires}))
+
+    def wirevector_subset(I_, a, k):
+        names = [getattr(c, 'name', None) for c in (a[0] if isinstance(a[0], tuple) else (a[0],))]
+        if names != ['Input']:
+            from pyvc.engine import Unsupported
+            raise Unsupported('wirevector_subset(%r) in the step model' % names)
+        return FSet(wires, {id(w): inputs_fn(w) for w in wires})
+    blk.fields['wirevector_subset'] = Builtin('Block.wirevector_subset', wirevector_subset)
+    return blk
+
+
+@register
+class StepValidate(_StepBase):
+    """Input validation of Simulation.step (C15, C01-S1): with a block whose wires are a, b, c of
+    symbolic kinds and widths, PyrtlError is raised iff a provided wire is not an Input, a provided
+    value is outside [0, 2**bitwidth), or an Input of the block has no value; otherwise the value
+    map holds exactly the provided values for the provided wires (no nets in this case)."""
+    props = ('C15', 'C01')
+    qualname = 'Simulation.step'
+    variant = 'validate'
+
+    def cases(self):
+        return ['names:a', 'names:a,b', 'wire:a', 'names:']
+
+    @property
+    def hooks(self):
+        h = dict(_StepBase.hooks.fget(self))
+        h['fset_universe'] = lambda: self._wires
+        return h
+
+    def setup(self, I, case):
+        import z3
+        from pyvc.engine import SSeq, Sym, SObj, Unsupported
+        st = I.st
+        wires = []
+        for nm in ('a', 'b', 'c'):
+            w = M.wire(I, nm, symbolic_kind=True)
+            w.fields['name'] = nm
+            wires.append(w)
+        self._wires = wires
+        sim = M.simulation(I)
+        is_in = lambda w: w.kind == 1      # noqa: E731   (kind code of Input)
+        sim.fields['block'] = _block_model(I, wires, is_in)
+        empty = SSeq(z3.IntVal(0), lambda i: None, 'tuple')
+        sim.fields.update(ordered_nets=empty, mem_update_nets=empty, reg_update_nets=empty, tracer=None)
+        # no register in this model: regvalue is empty
+        sim.fields['regvalue'] = M.partial_map(I, 'regvalue')
+        st.assume(sim.fields['regvalue'].dom == z3.K(z3.IntSort(), False))
+        kind, names = case.split(':')
+        keys = [n for n in names.split(',') if n]
+        byname = {w.fields['name']: w for w in wires}
+        prov = {}
+        vals = {}
+        for n in keys:
+            v = st.fresh_int('v_' + n)
+            vals[n] = v.t
+            prov[byname[n] if kind == 'wire' else n] = v
+        # the three wires are distinct objects
+        st.assume(z3.Distinct(*[w.oid for w in wires]))
+        return NS(self=sim, args=[prov], wires=byname, vals=vals, keys=keys, is_in=is_in)
+
+    def snapshot(self, I, ns):
+        ns.old_value = ns.self.fields['value'].arr
+
+    def raises(self, ns):
+        import z3
+        bad = []
+        for n in ns.keys:
+            w = ns.wires[n]
+            bw = w.fields['bitwidth'].t
+            bad.append(z3.Not(ns.is_in(w)))
+            bad.append(z3.Or(ns.vals[n] < 0, ns.vals[n] >= H.pow2(bw)))
+        for n, w in ns.wires.items():
+            if n not in ns.keys:
+                bad.append(ns.is_in(w))       # an Input without a value
+        return [('PyrtlError', z3.Or(*bad) if bad else False)]
+
+    def post(self, ns):
+        import z3
+        exp = ns.old_value
+        for n in ns.keys:
+            exp = z3.Store(exp, ns.wires[n].oid, ns.vals[n])
+        return [('value == old value with the provided inputs stored', ns.self.fields['value'].arr == exp)]
+
+    def concrete(self, tier='quick'):
+        def mk(bw, v):
+            def thunk():
+                import pyrtl
+                pyrtl.reset_working_block()
+                a = pyrtl.Input(bw, 'a')
+                o = pyrtl.Output(bw, 'o')
+                o <<= a
+                sim = pyrtl.Simulation()
+                try:
+                    sim.step({'a': v})
+                    got = sim.inspect('o')
+                except pyrtl.PyrtlError:
+                    got = None
+                exp = v if 0 <= v < (1 << bw) else None
+                return got == exp, got, exp
+            return thunk
+        for bw in (1, 2, 3, 8, 64, 65):
+            for v in [-2, -1, 0, 1, (1 << bw) - 1, 1 << bw, (1 << bw) + 1, 1 << (bw + 3)]:
+                yield ('bw=%d,v=%d' % (bw, v), mk(bw, v))
+
+
+def _nets_inv(I, fr, k):
+    """loop over ordered_nets: every net already executed holds its equation on the current value
+    map, wires that are no combinational destination are untouched, state maps are untouched."""
+    import z3
+    sim = fr.lookup('self')
+    g = sim.fields['_ghost']
+    val = sim.fields['value'].arr
+    if z3.is_int_value(k) and k.as_long() == 0:
+        g['V0'] = val
+    j, o = z3.Int('j!inv'), z3.Int('o!inv')
+    return [
+        ('executed nets hold their equation',
+         z3.ForAll([j], z3.Implies(z3.And(0 <= j, j < k, z3.Not(g['RQ'](j))),
+                                   z3.Select(val, g['D'](j)) == g['SEM'](j, val, g['oldmem'])))),
+        ('non-destination wires untouched',
+         z3.ForAll([o], z3.Implies(g['ND'](o), z3.Select(val, o) == z3.Select(g['V0'], o)))),
+        ('memvalue untouched', sim.fields['memvalue'].arr == g['oldmem']),
+        ('regvalue untouched', sim.fields['regvalue'].arr == g['oldreg']),
+    ]
+
+
+def _mems_inv(I, fr, k):
+    import z3
+    sim = fr.lookup('self')
+    g = sim.fields['_ghost']
+    val = sim.fields['value'].arr
+    mv = sim.fields['memvalue']
+    if z3.is_int_value(k) and k.as_long() == 0:
+        g['V1'] = val
+    MW, MW2 = g['MW'], g['MW2']
+    I.st.assume(MW(z3.IntVal(0)) == g['oldmem'])
+    I.st.assume(MW2(z3.IntVal(0)) == g['olddom2'])
+    V1 = g['V1']
+    en = z3.Select(V1, g['ME'](k))
+    mid, addr, data = g['MID'](k), z3.Select(V1, g['MA'](k)), z3.Select(V1, g['MD'](k))
+    I.st.assume(z3.Implies(k >= 0, MW(k + 1) == z3.If(
+        en != 0, z3.Store(MW(k), mid, z3.Store(z3.Select(MW(k), mid), addr, data)), MW(k))))
+    I.st.assume(z3.Implies(k >= 0, MW2(k + 1) == z3.If(
+        en != 0, z3.Store(MW2(k), mid, z3.Store(z3.Select(MW2(k), mid), addr, True)), MW2(k))))
+    return [('memvalue == writes 0..k-1 applied in order to the old memory', mv.arr == MW(k)),
+            ('defined addresses follow the writes', mv.dom2 == MW2(k)),
+            ('value untouched by memory writes', val == V1),
+            ('every written memid exists', mv.dom == g['memdom'])]
+
+
+def _regs_inv(I, fr, k):
+    import z3
+    sim = fr.lookup('self')
+    g = sim.fields['_ghost']
+    val = sim.fields['value'].arr
+    rv = sim.fields['regvalue']
+    RG, RGD = g['RG'], g['RGD']
+    I.st.assume(RG(z3.IntVal(0)) == g['oldreg'])
+    I.st.assume(RGD(z3.IntVal(0)) == g['regdom'])
+    nxt = z3.Select(g['V1'], g['RA'](k)) % H.pow2(g['RW'](k))
+    I.st.assume(z3.Implies(k >= 0, RG(k + 1) == z3.Store(RG(k), g['R'](k), nxt)))
+    I.st.assume(z3.Implies(k >= 0, RGD(k + 1) == z3.Store(RGD(k), g['R'](k), True)))
+    I.st.assume(z3.Implies(k >= 0, g['RW'](k) >= 1))
+    return [('regvalue == captures 0..k-1 of value[next] mod 2**len', rv.arr == RG(k)),
+            ('regvalue keys', rv.dom == RGD(k)),
+            ('value untouched by register capture', val == g['V1'])]
+
+
+@register
+class StepPhase(_StepBase):
+    """Phase lemma of Simulation.step over a symbolic well-formed netlist (C01 S1-S6):
+    registers show the stored value; every combinational net holds its documented equation on the
+    final value map, reading the memory content from before this cycle's writes; memory writes
+    and next-register values are computed from the settled values; the trace receives exactly the
+    final value map."""
+    props = ('C01', 'C08')
+    qualname = 'Simulation.step'
+    variant = 'phase'
+    invariants = {('Simulation.step', 2): ForInv(_nets_inv, heap=lambda I, fr: [fr.lookup('self').fields['value']]),
+                  ('Simulation.step', 3): ForInv(_mems_inv, heap=lambda I, fr: [fr.lookup('self').fields['memvalue']]),
+                  ('Simulation.step', 4): ForInv(_regs_inv, heap=lambda I, fr: [fr.lookup('self').fields['regvalue']])}
+
+    def cases(self):
+        return ['phase']
+
+    @property
+    def hooks(self):
+        h = dict(_StepBase.hooks.fget(self))
+        h['fset_universe'] = lambda: self._wires
+        return h
+
+    def setup(self, I, case):
+        import z3
+        from pyvc.engine import SSeq, Sym, SObj, Builtin
+        st = I.st
+        Int, Bool = z3.IntSort(), z3.BoolSort()
+        A = z3.ArraySort(Int, Int)
+        AA = z3.ArraySort(Int, A)
+        AB = z3.ArraySort(Int, z3.ArraySort(Int, Bool))
+        n = next(st.n)
+        a = M.wire(I, 'a', cls='Input')
+        a.fields['name'] = 'a'
+        self._wires = [a]
+        sim = M.simulation(I)
+        sim.fields['regvalue'] = M.partial_map(I, 'regvalue')
+        sim.fields['block'] = _block_model(I, [a], lambda w: z3.BoolVal(True))
+        g = dict(
+            SEM=z3.Function('SEM!%d' % n, Int, A, AA, Int), D=z3.Function('D!%d' % n, Int, Int),
+            RQ=z3.Function('RQ!%d' % n, Int, Bool), ARGS=z3.Function('ARGS!%d' % n, Int, Int, Bool),
+            ND=z3.Function('ND!%d' % n, Int, Bool),
+            MA=z3.Function('MA!%d' % n, Int, Int), MD=z3.Function('MD!%d' % n, Int, Int),
+            ME=z3.Function('ME!%d' % n, Int, Int), MID=z3.Function('MID!%d' % n, Int, Int),
+            MW=z3.Function('MW!%d' % n, Int, AA), MW2=z3.Function('MW2!%d' % n, Int, AB),
+            RA=z3.Function('RA!%d' % n, Int, Int), R=z3.Function('R!%d' % n, Int, Int),
+            RW=z3.Function('RW!%d' % n, Int, Int), RG=z3.Function('RG!%d' % n, Int, A),
+            RGD=z3.Function('RGD!%d' % n, Int, z3.ArraySort(Int, Bool)))
+        N, NM, NR = z3.Int('N!%d' % n), z3.Int('NM!%d' % n), z3.Int('NR!%d' % n)
+        st.assume(z3.And(N >= 0, NM >= 0, NR >= 0))
+        g.update(N=N, NM=NM, NR=NR)
+        sim.fields['_ghost'] = g
+
+        def absnet(i):
+            return SObj('LogicNet', {'_abs_idx': i})
+
+        def regnet(i):
+            src = SObj('WireVector', dict(bitwidth=Sym(z3.IntVal(1))), oid=g['RA'](i))
+            dst = SObj('Register', dict(bitwidth=Sym(g['RW'](i))), oid=g['R'](i))
+            return SObj('LogicNet', dict(op='r', args=(src,), dests=(dst,)))
+        sim.fields['ordered_nets'] = SSeq(N, absnet, 'tuple')
+        sim.fields['mem_update_nets'] = SSeq(NM, absnet, 'tuple')
+        sim.fields['reg_update_nets'] = SSeq(NR, regnet, 'tuple')
+        tracer = SObj('SimulationTrace', {})
+
+        def add_step(I_, args, k):
+            g['traced'] = args[0].arr
+        tracer.fields['add_step'] = Builtin('SimulationTrace.add_step(ghost)', add_step)
+        sim.fields['tracer'] = tracer
+        # ---- well-formedness of the netlist as established by sanity_check / Block.__iter__ (C10)
+        i, j, o, x, y = z3.Ints('i!wf j!wf o!wf x!wf y!wf')
+        v = z3.Const('v!wf', A)
+        m = z3.Const('m!wf', AA)
+        D, RQ, ARGS, ND, SEM = g['D'], g['RQ'], g['ARGS'], g['ND'], g['SEM']
+        st.assume(z3.ForAll([i, j], z3.Implies(z3.And(0 <= i, i < j, j < N, z3.Not(RQ(i)), z3.Not(RQ(j))),
+                                               D(i) != D(j))))                       # single driver
+        st.assume(z3.ForAll([i, j], z3.Implies(z3.And(0 <= j, j <= i, i < N, z3.Not(RQ(i))),
+                                               z3.Not(ARGS(j, D(i))))))              # producers first
+        st.assume(z3.ForAll([j, v, x, y, m], z3.Implies(z3.Not(ARGS(j, x)),
+                                                        SEM(j, z3.Store(v, x, y), m) == SEM(j, v, m))))
+        st.assume(z3.ForAll([o, j], z3.Implies(z3.And(ND(o), 0 <= j, j < N, z3.Not(RQ(j))), D(j) != o)))
+        regdom = sim.fields['regvalue'].dom
+        st.assume(z3.ForAll([o], z3.Implies(z3.Select(regdom, o), ND(o))))     # registers are no comb. dests
+        st.assume(ND(a.oid))                                                  # nor are Inputs
+        st.assume(z3.Not(z3.Select(regdom, a.oid)))
+        mv = sim.fields['memvalue']
+        st.assume(z3.ForAll([j], z3.Implies(z3.And(0 <= j, j < NM), z3.Select(mv.dom, g['MID'](j)))))
+        va = st.fresh_int('v_a')
+        st.assume(M.in_range(va.t, a.fields['bitwidth'].t))
+        return NS(self=sim, args=[{'a': va}], a=a, va=va.t, g=g)
+
+    def snapshot(self, I, ns):
+        s = ns.self.fields
+        g = ns.g
+        g['oldmem'], g['olddom2'], g['memdom'] = s['memvalue'].arr, s['memvalue'].dom2, s['memvalue'].dom
+        g['oldreg'], g['regdom'] = s['regvalue'].arr, s['regvalue'].dom
+        ns.old_value = s['value'].arr
+
+    def post(self, ns):
+        import z3
+        s, g = ns.self.fields, ns.g
+        val = s['value'].arr
+        j, o = z3.Int('j!post'), z3.Int('o!post')
+        return [
+            ('S1 input holds the provided value', z3.Select(val, ns.a.oid) == ns.va),
+            ('S2 every register shows its stored value',
+             z3.ForAll([o], z3.Implies(z3.Select(g['regdom'], o), z3.Select(val, o) == z3.Select(g['oldreg'], o)))),
+            ('S3 every combinational net holds its equation on the final values, reading the old memory',
+             z3.ForAll([j], z3.Implies(z3.And(0 <= j, j < g['N'], z3.Not(g['RQ'](j))),
+                                       z3.Select(val, g['D'](j)) == g['SEM'](j, val, g['oldmem'])))),
+            ('S4 memory == old memory with the enabled writes evaluated on the final values',
+             z3.And(s['memvalue'].arr == g['MW'](g['NM']), g['V1'] == val)),
+            ('S5 next register values captured from the final values, truncated',
+             s['regvalue'].arr == g['RG'](g['NR'])),
+            ('S6 the trace receives exactly the final value map', g.get('traced') == val),
+        ]
